@@ -6,6 +6,7 @@ package main
 
 import (
 	"fmt"
+	"go/ast"
 	"go/token"
 	"go/types"
 	"sort"
@@ -127,6 +128,7 @@ type frame struct {
 	loopAuto  map[*loopInfo][]autoInv
 	unrolling map[*loopInfo]bool
 	deferArgs []callArgs
+	lastLine  int
 }
 
 type loopInfo struct {
@@ -979,8 +981,93 @@ func (c *FnCtx) nameVal(v Val, prefix string) Val {
 	return r
 }
 
+// checkAsserts fires the contract's assert_at clauses whose source-line
+// marker matches the line of the instruction about to be executed.
+func (c *FnCtx) checkAsserts(fr *frame, b *ssa.BasicBlock, st *State, in ssa.Instruction) {
+	if fr.con == nil || len(fr.con.Asserts) == 0 || c.dry > 0 {
+		return
+	}
+	if _, ok := in.(*ssa.DebugRef); ok {
+		return
+	}
+	p := in.Pos()
+	if !p.IsValid() {
+		return
+	}
+	line := c.eng.fset.Position(p).Line
+	if fr.lastLine == line {
+		return
+	}
+	fr.lastLine = line
+	text := c.srcLine(p)
+	for _, a := range fr.con.Asserts {
+		if !strings.Contains(text, a.Name) {
+			continue
+		}
+		var pkg *types.Package
+		if fr.fn.Pkg != nil {
+			pkg = fr.fn.Pkg.Pkg
+		}
+		var li *loopInfo
+		for _, l := range fr.loops {
+			if l.blocks[b] && (li == nil || len(l.blocks) < len(li.blocks)) {
+				li = l
+			}
+		}
+		ec := &evalCtx{c: c, st: st, old: c.entry, pkg: pkg, preds: fr.con.Preds, bound: c.lets}
+		base := c.resolver(fr, li, nil)
+		ec.names = func(n string) (Val, bool) {
+			if v, ok := c.debugAt(fr, b, in, n); ok {
+				return v, true
+			}
+			return base(n)
+		}
+		t := ec.boolOf(a.Expr)
+		o := c.oblige(st, "assert", "assertion before the line containing "+a.Name, t, p, "assert_at "+a.Name+": "+a.Text)
+		if o != nil && a.Canary {
+			o.Canary = true
+		}
+	}
+}
+
+// debugAt: value of a source variable just before instruction `at` in block
+// b, from the debug references of b (before `at`) and of dominating blocks.
+func (c *FnCtx) debugAt(fr *frame, b *ssa.BasicBlock, at ssa.Instruction, name string) (Val, bool) {
+	var best ssa.Value
+	scan := func(blk *ssa.BasicBlock, stop ssa.Instruction) {
+		for _, in := range blk.Instrs {
+			if in == stop {
+				return
+			}
+			if d, ok := in.(*ssa.DebugRef); ok && !d.IsAddr {
+				if id, ok := d.Expr.(*ast.Ident); ok && id.Name == name {
+					if _, computed := fr.regs[d.X]; computed {
+						best = d.X
+					} else if _, isConst := d.X.(*ssa.Const); isConst {
+						best = d.X
+					}
+				}
+			}
+		}
+	}
+	// dominators from the entry down to b
+	var chain []*ssa.BasicBlock
+	for x := b; x != nil; x = x.Idom() {
+		chain = append(chain, x)
+	}
+	for i := len(chain) - 1; i >= 1; i-- {
+		scan(chain[i], nil)
+	}
+	scan(b, at)
+	if best == nil {
+		return Val{}, false
+	}
+	return c.value(fr, best), true
+}
+
 func (c *FnCtx) execBlock(fr *frame, b *ssa.BasicBlock, st *State, route router) {
 	for _, in := range b.Instrs {
+		c.checkAsserts(fr, b, st, in)
 		if _, ok := in.(*ssa.Phi); ok {
 			continue
 		}
